@@ -853,7 +853,11 @@ func (x *c18StepCtx) judgeOnce() []*evid.Violation {
 			}
 		}
 		// backup bookkeeping: the tag was overwritten
-		if hadP && Q != P && len(e.Opt.Backup) > 0 {
+		if hadP && Q != P && len(e.Opt.Backup) > 0 && c18ReDigestTag.MatchString(k.Tag) && p.DTRepos[[2]string{k.Host, k.Repo}] {
+			// a digest tag is also written as a side effect of the digestTags feature while another tag is copied
+			// (ImageCopy has no notion of backups): not judged, like the other digest-tag clauses
+			x.Labels["exempt:digest-tag-backup"]++
+		} else if hadP && Q != P && len(e.Opt.Backup) > 0 {
 			s := c18EvalBackup(e.Opt.Backup, x.Names.name(k.Host), k.Repo, k.Tag, e.Type)
 			bk, ok := c18BackupKey(s, k, x.Names)
 			if !ok || bk == k {
